@@ -242,6 +242,39 @@ def observe_all(g, info, which=('sql', 'dbml'), elements=True):
 
 
 # ------------------------------------------------------------------ edits (C10)
+def gen_rejected(g, info, n):
+    """append up to n operations that the library must refuse and that must leave everything as it was: a column or an
+    index offered to / removed from the wrong table, an element added twice, an absent element deleted.  Returns the
+    slots of the operations (each observes `raise ...`)."""
+    r = g.r
+    tabs = info['tables']
+    out = []
+
+    def cname(c):
+        return g.ops[c].args[0]
+    for _ in range(n):
+        kind = r.choice(['delcol_other', 'delcol_other', 'addidx_foreign', 'add_twice', 'del_absent'])
+        if kind == 'delcol_other' and len(tabs) >= 2:
+            t1, t2 = r.sample(tabs, 2)
+            own = {cname(c) for c in info['columns'][t2]}
+            cand = [c for c in info['columns'][t1] if cname(c) not in own]
+            if cand:
+                out.append(g.emit(Op(51, t2, V('obj', r.choice(cand)))))
+        elif kind == 'addidx_foreign' and len(tabs) >= 2:
+            t1, t2 = r.sample(tabs, 2)
+            own = {cname(c) for c in info['columns'][t2]}
+            cand = [c for c in info['columns'][t1] if cname(c) not in own]
+            if cand:
+                ix = g.emit(Op(13, V('subjects', [(1, r.choice(cand))]), 'rej%d' % len(g.ops), False, None, False, NONE, None))
+                out.append(g.emit(Op(52, t2, ix)))
+        elif kind == 'add_twice' and tabs:
+            out.append(g.emit(Op(30, 0, info['db'], r.choice(tabs))))
+        elif kind == 'del_absent':
+            x = g.emit(Op(18, 'never added %d' % len(g.ops), 'text'))
+            out.append(g.emit(Op(40, 0, info['db'], x)))
+    return out
+
+
 def gen_edits(g, info, n, sql_benign=False):
     """append n random in-place edits of the kinds C10 lists"""
     r = g.r
@@ -264,6 +297,8 @@ def gen_edits(g, info, n, sql_benign=False):
         elif kind == 'ctype' and cols:
             if info['enums'] and r.random() < 0.4:
                 g.emit(Op(60, r.choice(cols), 2, V('obj', r.choice(info['enums']))))
+            elif info['enums'] and r.random() < 0.3 and isinstance(g.ops[info['enums'][0]].args[0], str):
+                g.emit(Op(60, r.choice(cols), 2, vs(g.ops[r.choice(info['enums'])].args[0])))     # the enum's name as a plain string
             else:
                 g.emit(Op(60, r.choice(cols), 2, vs(r.choice(TYPES))))
         elif kind == 'cflag' and cols:
@@ -300,7 +335,12 @@ def gen_edits(g, info, n, sql_benign=False):
         elif kind == 'rcomment' and info['refs']:
             g.emit(Op(60, r.choice(info['refs']), 5, vs(g.otext(0.7))))
         elif kind == 'addcol':
-            c = g.emit(Op(12, 'added' + str(len(g.ops)), vs(r.choice(TYPES)), False, r.random() < 0.3, r.random() < 0.2, False,
+            tys = list(TYPES)
+            if info['enums'] and r.random() < 0.4:
+                # a plain type string that merely spells the name of an enum of the database stays a string
+                e_ = g.ops[r.choice(info['enums'])]
+                tys = [e_.args[0], '%s.%s' % (e_.args[2], e_.args[0])] if isinstance(e_.args[0], str) and isinstance(e_.args[2], str) else tys
+            c = g.emit(Op(12, 'added' + str(len(g.ops)), vs(r.choice(tys)), False, r.random() < 0.3, r.random() < 0.2, False,
                           NONE, vs(g.otext(0.3)), None, []))
             g.emit(Op(50, t, c))
             info['columns'][t] = cols + [c]
